@@ -305,6 +305,7 @@ macro_rules! c03 {
 c03!(c03_plain_drop, 1, [PLAIN], false);
 c03!(c03_plain_resume, 1, [PLAIN], true);
 c03!(c03_one_signal, 1, [ONE_SIG], false);
+c03!(c03_one_signal_resume, 1, [ONE_SIG], true);
 c03!(c03_two_signals_resume, 1, [TWO_SIGS], true);
 c03!(c03_eintr, 1, [EINTR_THEN_STOP], false);
 c03!(c03_signal_eintr, 1, [SIG_EINTR], true);
